@@ -254,7 +254,25 @@ def eval_point(case):
         return r
 
     tc = coords[0] if nd == 1 and len(coords) == 1 else np.array(coords)
+    # ONE caller-owned float64 array is handed to every Cartesian entry path in turn: no path may write into it
+    shared = np.array(p, dtype=np.float64)
+    shared2 = np.array([p], dtype=np.float64)
     # Cartesian input
+    h = make_empty(name)
+    r = run("find_bin_first", lambda: h.find_bin(shared))
+    if r.ok:
+        results["find_bin_first"] = (as_index(r.value, nd), "unchanged")
+    r = run("fill_shared", lambda: h.fill(shared))
+    if r.ok:
+        results["fill_shared"] = (as_index(r.value, nd), cell_of(h))
+    hs2 = make_empty(name)
+    r = run("fill_n_shared", lambda: hs2.fill_n(shared2))
+    if r.ok:
+        results["fill_n_shared"] = (None, cell_of(hs2))
+    r = run("transform_shared", lambda: K.transform(shared2))
+    if shared.tolist() != list(p) or shared2.tolist() != [list(p)]:
+        out.append(V("input_untouched", f"input_modified|{sb}", case, list(p), {"point": shared.tolist(), "array": shared2.tolist()}))
+    results.pop("transform_shared", None)
     h = make_empty(name)
     r = run("fill", lambda: h.fill(np.array(p)))
     if r.ok:
@@ -458,6 +476,19 @@ def eval_projection(case):
         pass  # kept axes stay in their original order
     if np.asarray(r.frequencies).tolist() != want.tolist():
         out.append(V("projection_contents", f"{sb}|contents", case, want.tolist(), np.asarray(r.frequencies).tolist()))
+    # the same projection again after more points were entered one by one (nothing stale may be served)
+    extra = all_points(name)[::7]
+    for q in extra:
+        h.fill(np.array(q))
+    res2 = call(lambda: h.projection(*spec))
+    if not res2.ok:
+        out.append(V("projection_succeeds", f"{sb}|second_raises|{exc_sig(res2.exc)}", case, "a projection", res2.describe()))
+    else:
+        want2 = np.asarray(h.frequencies).sum(axis=drop)
+        if np.asarray(res2.value.frequencies).tolist() != want2.tolist():
+            out.append(V("projection_contents", f"{sb}|contents_after_fill", case, want2.tolist(), np.asarray(res2.value.frequencies).tolist()))
+        if np.asarray(r.frequencies).tolist() != want.tolist():
+            out.append(V("projection_independent", f"{sb}|first_projection_changed", case, want.tolist(), np.asarray(r.frequencies).tolist()))
     kept = sorted(axes)
     for i, a in enumerate(kept):
         if np.asarray(r.binnings[i].bins).tolist() != np.asarray(h.binnings[a].bins).tolist():
